@@ -32,6 +32,8 @@ func genC05Target(t *rapid.T, ctx *Ctx, sc *Scenario, fam int) (*c05Target, erro
 		c, err = GenCase(t, ctx, sc, CaseCfg{Family: FamHuge, MaxIn: 2, HoldAny: true}, rapid.SampledFrom([]int{0, 0, 0, 1}).Draw(t, "depth"), "c")
 	case FamWide:
 		c, err = GenCase(t, ctx, sc, CaseCfg{Family: FamWide, MaxIn: 2, HoldAny: true}, rapid.SampledFrom([]int{0, 0, 1}).Draw(t, "depth"), "c")
+	case FamSparse:
+		c, err = GenCase(t, ctx, sc, CaseCfg{Family: FamSparse, MaxIn: 2, HoldAny: true}, rapid.SampledFrom([]int{0, 0, 1}).Draw(t, "depth"), "c")
 	default:
 		src := rapid.IntRange(0, 4).Draw(t, "source")
 		switch src {
@@ -309,7 +311,15 @@ func c05Prop(st *CaseStats, fam int) func(t *rapid.T) {
 					lo = lastTarget
 				}
 				var d uint64
-				switch rapid.IntRange(0, 11).Draw(t, "advKind") {
+				switch rapid.IntRange(0, 12).Draw(t, "advKind") {
+				case 12: // one of the last three postings of the list (the highest-numbered chunks)
+					if idx < len(live) {
+						j := len(live) - 1 - rapid.IntRange(0, 2).Draw(t, "fromEnd")
+						if j < idx {
+							j = idx
+						}
+						d = live[j].Doc
+					}
 				case 11: // beyond the 32-bit document number space: nothing can be at or after such a target
 					d = rapid.SampledFrom([]uint64{1 << 32, 1<<32 + 1, 1 << 33, 5 << 32, 1 << 63, math.MaxUint64, math.MaxUint32}).Draw(t, "beyond32")
 					if idx < len(live) && rapid.Bool().Draw(t, "beyond32low") {
@@ -483,4 +493,10 @@ func TestC05Huge(t *testing.T) {
 	st := NewStats("C05Huge", c05Rule)
 	defer st.Flush()
 	rapid.Check(t, c05Prop(st, FamHuge))
+}
+
+func TestC05Sparse(t *testing.T) {
+	st := NewStats("C05Sparse", c05Rule)
+	defer st.Flush()
+	rapid.Check(t, c05Prop(st, FamSparse))
 }
